@@ -530,14 +530,30 @@ def _after_legs(out, res, flog, glog, boundaries, mode, n, scen, spec, sweeps):
     out.count("solver_scenario:" + scen)
     if "LNSRCH" in str(res.message):
         out.count("solver_runs_ending_in_failed_line_search")
+    # objective calls made by a finite-difference sweep for its stencil points are not requests to the wrapper: the memo cell holds the
+    # last *requested* point. A line-search trial that lands bit for bit on the stencil point evaluated just before it (thorough sweep,
+    # seed 2: x + 2^-26 in one variable at the noise floor, where the differenced gradient is a small multiple of ulp(f) / 2^-26) is a
+    # new request and has to be evaluated. The rule is therefore applied to the calls that serve requests (those outside every sweep):
+    # two successive ones must differ - a request, a sweep at it, and the same request again must not reach the user a second time
+    in_sweep = set()
+    for _b, a, b in sweeps:
+        in_sweep.update(range(a, b or a))
     for name, log in (("objective", flog), ("gradient", glog)):
-        for k in range(1, len(log)):
-            if k in boundaries[name]:
+        prev = None
+        for k in range(len(log)):
+            if name == "objective" and k in in_sweep:
                 continue
+            if k in boundaries[name]:
+                prev = k
+                continue
+            if prev is None:
+                prev = k
+                continue
+            k0, prev = prev, k
             out.count("consecutive_solver_calls_checked")
-            if np.array_equal(log[k], log[k - 1], equal_nan=True):
+            if np.array_equal(log[k], log[k0], equal_nan=True):
                 out.violate("reevaluated_known_point", f"solver run n={n} scenario={scen} mode={mode} ({res.message!r}, nit={res.nit}): the user's {name} was called twice "
-                            f"in a row at the same point (calls #{k - 1} and #{k})", mode=str(mode), what="solver_" + name)
+                            f"in a row at the same point (calls #{k0} and #{k})", mode=str(mode), what="solver_" + name)
                 break
     out.nontrivial = True
     out.key = f"solver/{spec['seed']}"
